@@ -22,3 +22,177 @@ def register(reg):
     reg.add_lemma(Lemma('cnt_frame', base=_cnt_frame_base, step=_cnt_frame_step,
                         doc='0 <= k <= n  =>  cnt(store(a, n, v), k) == cnt(a, k)   (induction on k)',
                         properties=('C17', 'C01', 'C02')))
+
+
+# ---------------------------------------------------------------------------------------------
+# C17: flags of a prefix never depend on the layers above it
+# ---------------------------------------------------------------------------------------------
+from pyvc.smt import And, Or, Not, Implies, Iff
+from .spec import sig_rule, p2o, hnum, fmt03, okta_of, abbr
+
+IntArr = z3.ArraySort(z3.IntSort(), z3.IntSort())
+
+
+def _sig_inst(o, r, j):
+    return r[j] == sig_rule(o[j], cnt(r, j))
+
+
+def _prefix_base():
+    r, r2 = z3.Const('r', BoolArr), z3.Const('r2', BoolArr)
+    return [cnt_def(r, z3.IntVal(0)), cnt_def(r2, z3.IntVal(0))], cnt(r, 0) == cnt(r2, 0)
+
+
+def _prefix_step():
+    """IH: counts agree at j (and flags agree below j);  j < p <= min(n, n'), oktas agree at j, both results satisfy
+    SigRel at j  =>  flags agree at j and counts agree at j+1."""
+    o, o2 = z3.Const('o', IntArr), z3.Const('o2', IntArr)
+    r, r2 = z3.Const('r', BoolArr), z3.Const('r2', BoolArr)
+    j, p, n, n2 = z3.Ints('j p n n2')
+    hy = [0 <= j, j < p, p <= n, p <= n2, o[j] == o2[j], cnt(r, j) == cnt(r2, j),
+          _sig_inst(o, r, j), _sig_inst(o2, r2, j), cnt_def(r, j), cnt_def(r2, j)]
+    return hy, z3.And(r[j] == r2[j], cnt(r, j + 1) == cnt(r2, j + 1))
+
+
+def _sig_le3_step():
+    """cnt(sig, j) <= 3 for every j <= n (induction on j)"""
+    o = z3.Const('o', IntArr); r = z3.Const('r', BoolArr); j, n = z3.Ints('j n')
+    hy = [0 <= j, j < n, cnt(r, j) <= 3, _sig_inst(o, r, j), cnt_def(r, j)]
+    return hy, cnt(r, j + 1) <= 3
+
+
+def _sig_le3_base():
+    r = z3.Const('r', BoolArr)
+    return [cnt_def(r, z3.IntVal(0))], cnt(r, 0) <= 3
+
+
+# ---------------------------------------------------------------------------------------------
+# C18: perc2okta / height2code as functions of (n, m) and of the height
+# ---------------------------------------------------------------------------------------------
+
+def _nm():
+    n, m = z3.Ints('n m')
+    v = z3.Real('v')
+    # v is the percentage n/m*100 (exact; the float computed by the code differs by rounding: A-REAL)
+    return n, m, v, [0 <= n, n <= m, m >= 1, v * z3.ToReal(m) == 100 * z3.ToReal(n)]
+
+
+def _c18_zero():
+    n, m, v, hy = _nm()
+    return hy, (p2o(v) == 0) == (n == 0)
+
+
+def _c18_eight():
+    n, m, v, hy = _nm()
+    return hy, (p2o(v) == 8) == (n == m)
+
+
+def _c18_range():
+    n, m, v, hy = _nm()
+    return hy + [0 < n, n < m], z3.And(p2o(v) >= 1, p2o(v) <= 7)
+
+
+def _c18_nearest():
+    """strictly inside, where 1 <= 8n/m <= 7: |okta - 8n/m| <= 1/2 (ties either way are 'nearest')"""
+    n, m, v, hy = _nm()
+    x = v * 8 / 100
+    return hy + [0 < n, n < m, x >= 1, x <= 7], z3.And(z3.ToReal(p2o(v)) - x <= 0.5, x - z3.ToReal(p2o(v)) <= 0.5)
+
+
+def _c18_clip():
+    n, m, v, hy = _nm()
+    x = v * 8 / 100
+    return hy + [0 < n, n < m], z3.And(z3.Implies(x < 1, p2o(v) == 1), z3.Implies(x > 7, p2o(v) == 7))
+
+
+def _c18_mono_v():
+    v, w = z3.Reals('v w')
+    return [0 <= v, v <= w, w <= 100], p2o(v) <= p2o(w)
+
+
+def _c18_mono_nm():
+    """n <= n' (same m) => percentage does not decrease (the only non-linear step), hence okta does not (mono_v)"""
+    n, n2, m = z3.Ints('n n2 m')
+    v, w = z3.Reals('v w')
+    hy = [0 <= n, n <= n2, n2 <= m, m >= 1, v * z3.ToReal(m) == 100 * z3.ToReal(n), w * z3.ToReal(m) == 100 * z3.ToReal(n2)]
+    return hy, z3.And(0 <= v, v <= w, w <= 100)
+
+
+def _h_floor():
+    """the coded height never exceeds the input: 100 * code <= h for 0 <= h"""
+    h = z3.Real('h')
+    return [h >= 0], z3.And(100 * z3.ToReal(hnum(h)) <= h, hnum(h) >= 0)
+
+
+def _h_tight():
+    """... and is the *floor*: less than one coding step below the input"""
+    h = z3.Real('h')
+    return [h >= 0], z3.If(h <= 10000, h - 100 * z3.ToReal(hnum(h)) < 100, h - 100 * z3.ToReal(hnum(h)) < 1000)
+
+
+def _h_mono():
+    h, g = z3.Reals('h g')
+    return [0 <= h, h <= g], hnum(h) <= hnum(g)
+
+
+def _h_three_digits():
+    h = z3.Real('h')
+    return [0 <= h, h < 100000], z3.And(hnum(h) >= 0, hnum(h) <= 999)
+
+
+def _fmt03_digits():
+    k = z3.Int('k')
+    d = z3.Range('0', '9')
+    return [0 <= k, k <= 999], z3.InRe(fmt03(k), z3.Concat(d, d, d))
+
+
+def _fmt03_value():
+    """the three digits (k/100, k/10 % 10, k % 10) that fmt03 writes denote k"""
+    k = z3.Int('k')
+    return [0 <= k, k <= 999], z3.And((k / 100) * 100 + ((k / 10) % 10) * 10 + k % 10 == k,
+                                      0 <= k / 100, k / 100 <= 9, 0 <= (k / 10) % 10, (k / 10) % 10 <= 9, 0 <= k % 10, k % 10 <= 9)
+
+
+def _fp_floor100():
+    """A-FP side lemma (standard model of rounding, u = 2^-53): a double v < 100k (100k exactly representable, not a
+    power of two) satisfies v <= 100k(1-u); the computed quotient q = fl(v/100) has |q - v/100| <= u v/100;
+    then q < k, so floor(q) <= k-1: flooring the *computed* quotient never codes upward."""
+    u = z3.Q(1, 2 ** 53)
+    v, q, k = z3.Reals('v q k')
+    return [k >= 1, v >= 0, v <= 100 * k * (1 - u), q - v / 100 <= u * (v / 100), q - v / 100 >= -u * (v / 100)], q < k
+
+
+def _fp_floor1000():
+    u = z3.Q(1, 2 ** 53)
+    v, q, k = z3.Reals('v q k')
+    return [k >= 1, v >= 0, v <= 1000 * k * (1 - u), q - v / 1000 <= u * (v / 1000), q - v / 1000 >= -u * (v / 1000)], q < k
+
+
+def register_props(reg):
+    L = lambda *a, **k: reg.add_lemma(Lemma(*a, **k))
+    L('prop.C17.prefix', base=_prefix_base, step=_prefix_step, properties=('C17',),
+      doc='results for two okta lists that agree on [0,p) agree on [0,p) (strong induction on the position)')
+    L('sig_le3', base=_sig_le3_base, step=_sig_le3_step, properties=('C17', 'C01', 'C02'),
+      doc='SigRel(o, r) => cnt(r, j) <= 3 for all j: at most three flags')
+    L('prop.C18.nm.zero', direct=_c18_zero, properties=('C18', 'C03'), doc='okta 0 iff n = 0')
+    L('prop.C18.nm.eight', direct=_c18_eight, properties=('C18', 'C03'), doc='okta 8 iff n = m')
+    L('prop.C18.nm.range', direct=_c18_range, properties=('C18', 'C03'), doc='0 < n < m => okta in 1..7')
+    L('prop.C18.nm.nearest', direct=_c18_nearest, properties=('C18',), doc='nearest okta where 1 <= 8n/m <= 7')
+    L('prop.C18.nm.clip', direct=_c18_clip, properties=('C18',), doc='clipped to 1 / 7 outside')
+    L('prop.C18.mono_v', direct=_c18_mono_v, properties=('C18', 'C03'), doc='p2o non-decreasing in the percentage')
+    L('prop.C18.mono_nm', direct=_c18_mono_nm, properties=('C18', 'C03'), doc='percentage non-decreasing in n')
+    L('prop.C18.h.floor', direct=_h_floor, properties=('C18', 'C04'), doc='100*code <= h')
+    L('prop.C18.h.tight', direct=_h_tight, properties=('C18', 'C04'), doc='h - 100*code < step')
+    L('prop.C18.h.mono', direct=_h_mono, properties=('C18', 'C04'), doc='code non-decreasing in h')
+    L('prop.C18.h.three_digits', direct=_h_three_digits, properties=('C18', 'C04', 'C01'), doc='0 <= h < 1e5 => 0 <= code <= 999')
+    L('fmt03.digits', direct=_fmt03_digits, properties=('C18', 'C01'), doc="f'{k:03}' is three decimal digits for 0 <= k <= 999")
+    L('fmt03.value', direct=_fmt03_value, properties=('C18',), doc="the digits of f'{k:03}' denote k for 0 <= k <= 999")
+    L('fp.floor100', direct=_fp_floor100, properties=('C18', 'C04'), doc='A-FP: computed v/100 stays below k when v < 100k')
+    L('fp.floor1000', direct=_fp_floor1000, properties=('C18', 'C04'), doc='A-FP: computed v/1000 stays below k when v < 1000k')
+
+
+_register_base = register
+
+
+def register(reg):      # noqa: F811
+    _register_base(reg)
+    register_props(reg)
